@@ -261,3 +261,47 @@ Proof. vm_compute. reflexivity. Qed.
 Example ex_wf_suite : wf_suite {| s_flag := false; s_mode := 0; s_codecs := [];
      s_cases := [ {| t_stream := 1; t_dirs := [Some 0]; t_msgs := [Padded 3 4; Opaque 2] |} ] |}.
 Proof. repeat constructor; cbn; unfold go_int_max; try discriminate. Qed.
+
+(* ---------- fourth wave ---------- *)
+(* the reference client hands its limit to the library for EVERY codec: the readers it installs are the
+   documented chain, sharp per message, whatever the codec of the RPC *)
+Theorem client_limit_any_codec : forall codec limit,
+  0 < limit -> client_readers codec limit = documented_chain limit /\
+               stream_sharp_at limit (chain_accepts (client_readers codec limit)).
+Proof. exact client_limit_any_codec_proof. Qed.
+Print Assumptions client_limit_any_codec.
+
+(* the reference server's ClientStream handler answers resource_exhausted iff SOME message is above the limit -
+   whatever the response definition asks for - and what the definition asks for iff every message is within it *)
+Theorem receive_error_comes_first : forall limit def sizes,
+  (client_stream_handler limit def sizes = OExhausted <-> exists s, In s sizes /\ limit < s) /\
+  (client_stream_handler limit def sizes = match def with DefData => OResponse | DefError => ODefinedError end
+     <-> forall s, In s sizes -> s <= limit).
+Proof. exact receive_error_comes_first_proof. Qed.
+Print Assumptions receive_error_comes_first.
+
+Example ex_error_definition_does_not_hide_the_limit :
+  client_stream_handler 204800 DefError [14; 204801] = OExhausted /\
+  client_stream_handler 204800 DefError [14; 204800] = ODefinedError /\
+  chain_accepts (client_readers 2 1048576) [1048577] = false.
+Proof. repeat split; reflexivity. Qed.
+
+(* the code's padding source (a fresh make([]byte, delta) per step) is unbounded: the loop with it is the proved loop *)
+Theorem unbounded_source_is_expand : forall left base T n,
+  pad_loop_src padding_source left base T n = pad_loop left true base T n.
+Proof. exact unbounded_source_is_expand_proof. Qed.
+Print Assumptions unbounded_source_is_expand.
+
+(* ... and it has to be: with ANY source of bounded length c, clamped per step, the three adjustments allowed
+   reject a reachable size (3 c + 11 bytes of padding more than there are), for every message and existing padding *)
+Theorem bounded_source_rejects_reachable : forall c base n0,
+  0 <= c -> 0 <= n0 -> n0 + 3 * c + 11 <= go_int_max ->
+  let T := msg_size base (n0 + 3 * c + 11) in
+  reachable base T /\ forall n, pad_loop_src (Some c) max_adjust base T n0 <> POk n.
+Proof. exact bounded_source_rejects_reachable_proof. Qed.
+Print Assumptions bounded_source_rejects_reachable.
+
+Example ex_shared_buffer_4MiB :
+  pad_loop_src (Some 1048576) max_adjust 0 (204800 + 4194304) 0 = PErr 3145733 /\
+  expand 0 0 (204800 + 4194304) = POk 4399099.
+Proof. split; vm_compute; reflexivity. Qed.
